@@ -12,6 +12,7 @@ import subprocess
 import sys
 import time
 
+ROOT = os.path.dirname(os.path.dirname(os.path.abspath(__file__)))  # the /verif tree this tool lives in (may be a snapshot)
 REPO = "/repo"  # replaced by a scratch worktree with --in-worktree
 ENV_EXTRA = {}
 PROPS = ["C03", "C05", "C08", "C09"]
@@ -130,7 +131,7 @@ def run_checks(props):
         env = dict(os.environ)
         env.setdefault("DMSIM_HANG_MS", "5000")
         env.update(ENV_EXTRA)
-        r = subprocess.run(["/verif/check", p, "quick"], capture_output=True, text=True, env=env)
+        r = subprocess.run([os.path.join(ROOT, "check"), p, "quick"], capture_output=True, text=True, env=env)
         viol = [l for l in r.stdout.splitlines() if l.startswith("VIOLATION")]
         classes = [l.strip() for l in r.stdout.splitlines() if l.strip().startswith("class=")]
         out[p] = {"exit": r.returncode, "violation_lines": len(viol), "classes": [c[:160] for c in classes[:6]],
@@ -164,15 +165,17 @@ def main():
             sys.exit(2)
         REPO = wt
         ENV_EXTRA["DMSIM_REPO"] = wt
-    os.makedirs("/verif/sensitivity", exist_ok=True)
+    os.makedirs(os.path.join(ROOT, "sensitivity"), exist_ok=True)
     if dirty():
         print("refusing: /repo working tree is not clean")
         sys.exit(2)
     results = []
     try:
         if args and args[0] == "--seeded":
-            base = "/verif/seeded"
+            base = os.path.join(ROOT, "seeded")
             for d in sorted(os.listdir(base)):
+                if d.startswith("_"):
+                    continue
                 patch = os.path.join(base, d, "patch.diff")
                 if not os.path.exists(patch) or (len(args) > 1 and not any(a in d for a in args[1:])):
                     continue
@@ -221,8 +224,8 @@ def main():
         restore()
         if wt:
             sh(f"git -C /repo worktree remove --force {wt}; git -C /repo worktree prune")
-    json.dump(results, open(f"/verif/sensitivity/{outname}.json", "w"), indent=1)
-    with open(f"/verif/sensitivity/{outname}.md", "w") as f:
+    json.dump(results, open(os.path.join(ROOT, "sensitivity", f"{outname}.json"), "w"), indent=1)
+    with open(os.path.join(ROOT, "sensitivity", f"{outname}.md"), "w") as f:
         f.write("| change | expected | C03 | C05 | C08 | C09 | first class reported |\n|---|---|---|---|---|---|---|\n")
         for r in results:
             if "error" in r:
